@@ -877,6 +877,9 @@ class Engine:
                 if g is False:
                     break
                 if g is not True:
+                    can, _cannot = self.decide(st, g)
+                    if not can:
+                        break      # the path condition already decides this operand: short-circuit
                     st.guards.append(g)
                     pushed += 1
         finally:
@@ -1757,6 +1760,8 @@ class Engine:
         post.old_vars = dict(bound)
         post.frames[-1].vars["result"] = res
         for label, expr, _props in c.ensures:
+            if label.startswith("local:"):
+                continue       # mentions the callee's locals: proved on its body, not visible to callers
             cond = self.ev_spec(expr, post, c)
             st.assume(cond)
         return res
